@@ -130,6 +130,93 @@ def make_churn(ctx, count):
     return scns
 
 
+def make_multi(ctx, count):
+    """three to six interfaces served by one core, each with its own mapper session, first heard in any order (the registry of
+    per-interface records is built up in that order), their histories interleaved frame by frame: every interface keeps
+    *its* mapper"""
+    scns = []
+    for i in range(count):
+        rng = G.rng_for(ctx.seed, "C05multi", i)
+        nif = rng.choice([3, 3, 4, 5, 6])
+        cfgs, hists = [], []
+        s = H.Scenario("mi%d" % i)
+        for k in range(nif):
+            cfg = G.rand_cfg(rng, mtu=rng.choice([576, 1500, 9000]))
+            net = G.Net(rng, cfg["mac"], nmappers=3, nstrangers=3)
+            cfgs.append(cfg)
+            hists.append(history(rng, net, rng.randint(15, 40)))
+            s.iface(k, **H.iface_kw(cfg))
+        s.glob(**G.global_kw(G.rand_global(rng, icon_size=0)))
+        s.add("OPT sleep=0")
+        order = list(range(nif))
+        rng.shuffle(order)
+        if i % 3 == 0:
+            order.sort(reverse=True)           # last-created context first
+        pos = [0] * nif
+        started = []
+        seq = []
+        # every interface is heard once in the chosen order (after a few frames of the ones heard before), then at random
+        for k in order:
+            for _ in range(rng.randint(0, 4)):
+                if started:
+                    j = rng.choice(started)
+                    if pos[j] < len(hists[j]):
+                        seq.append((j, hists[j][pos[j]]))
+                        pos[j] += 1
+            seq.append((k, hists[k][pos[k]]))
+            pos[k] += 1
+            started.append(k)
+        live = [k for k in range(nif) if pos[k] < len(hists[k])]
+        while live:
+            k = rng.choice(live)
+            seq.append((k, hists[k][pos[k]]))
+            pos[k] += 1
+            if pos[k] >= len(hists[k]):
+                live.remove(k)
+        for k, fr in seq:
+            s.frame(k, fr)
+        s.meta = dict(multi=[dict(frames=hists[k], mtu=cfgs[k]["mtu"], rxseed=cfgs[k]["rxseed"]) for k in range(nif)], order=order)
+        scns.append(s)
+    return scns
+
+
+def monitor_multi(scn, sobj, rep, sf, ck):
+    from ..model import RxBuf
+    per = sobj.meta["multi"]
+    st = [dict(rx=RxBuf(p["mtu"], p["rxseed"]), mm=MapperModel(), k=0, frames=p["frames"]) for p in per]
+    judged = 0
+    for inp in scn.inputs:
+        if inp.iface is None or inp.iface >= len(st):
+            continue
+        x = st[inp.iface]
+        if x["k"] >= len(x["frames"]):
+            continue
+        raw = x["frames"][x["k"]]
+        x["k"] += 1
+        fr = bytes(x["rx"].load(raw))[:max(36, len(raw))]
+        before, active_before = x["mm"].state, x["mm"].mapper
+        exp = x["mm"].step(fr)
+        if inp.out is None:
+            break
+        if exp is None:
+            continue
+        sends = inp.sends()
+        hellos = [e for e in sends if e[3] is not None and len(e[3]) >= 18 and e[3][17] == W.OP_HELLO]
+        got = "hello" if hellos else ("silence" if not sends else "other-frames")
+        judged += 1
+        if got != exp:
+            rep.violation("C05:several-interfaces:expected-%s-got-%s:state=%s" % (exp, got, before),
+                          "scenario %s (%d interfaces, first heard in the order %s): interface %d, model state %s (mapper %s), Discover from "
+                          "%s tos=%d: expected %s, observed %s" % (scn.sid, len(st), sobj.meta["order"], inp.iface, before,
+                                                                 active_before.hex() if active_before else None, fr[24:30].hex(), fr[15], exp, got),
+                          replay=sobj.text())
+    rep.count("discovers_judged_beside_other_interfaces", judged)
+    rep.count("histories_with_several_interfaces")
+    rep.evaluations += judged
+    if judged >= 3:
+        rep.nontrivial((scn.sid, len(st), judged))
+
+
 def monitor(scn, sobj, rep, sf, ck):
     frames = sobj.meta["frames"]
     from ..model import RxBuf
@@ -194,6 +281,7 @@ def run(ctx):
     binary = H.build(ctx.work, "asan")
     scns = make_scenarios(ctx, ctx.n(1500, 30000), 60)
     run_monitored(ctx, binary, scns, monitor, tag="hist")
+    run_monitored(ctx, binary, make_multi(ctx, ctx.n(200, 4000)), monitor_multi, tag="multi")
     plain = H.build(ctx.work, "plain")
     churn = make_churn(ctx, ctx.n(24, 400))
     run_monitored(ctx, binary, churn, monitor, tag="churn")
@@ -209,6 +297,7 @@ def run(ctx):
     for cls in ("idle/hello", "active-same/hello", "active-other/silence", "opened-by-command/hello"):
         rep.need("class:" + cls, rep.counters.get("discover_judged:" + cls, 0), 50)
     rep.need("churn_histories_reaching_the_observation_bound", rep.counters.get("churn_histories_reaching_the_observation_bound", 0), 10)
+    rep.need("discovers_judged_beside_other_interfaces", rep.counters.get("discovers_judged_beside_other_interfaces", 0), 1000)
     rep.need("foreign_service_frames", rep.counters.get("foreign_service_frames", 0), 1000)
     rep.need("opened-by-command-bridged", rep.counters.get("discover_judged:opened-by-command-bridged", 0), 20)
     rep.need("clock_gaps_between_frames", rep.counters.get("clock_gaps_between_frames", 0), 200)
